@@ -89,6 +89,7 @@ type uScript struct {
 	Settle  int       `json:"settle"`
 	Both    bool      `json:"both"`   // C13: run twice (fresh buffers / reused and scribbled buffers) and compare emissions
 	NoWire  bool      `json:"nowire"` // C12: do not log packets reaching the transport side (long runs)
+	NoStale bool      `json:"nostale"` // C12: the harness forgets the reader / writer of a stream when it unbinds it
 	Strict  bool      `json:"strict"` // C11: goroutine census 2 ms after Close returned, without the usual grace period
 	Rebind  bool      `json:"rebind"` // C11 P5: run twice (with / without the first life of stream rs) and record observations about rs
 	RS      uint32    `json:"rs"`     // the re-bound stream
@@ -990,7 +991,9 @@ func uRunX(t *testing.T, sc *uScript, out *vfWriter, scribble, quiet bool, rb *u
 			if b := getLocal(st.S); b != nil {
 				smu.Lock()
 				delete(local, st.S)
-				staleLocal[st.S] = b
+				if !sc.NoStale {
+					staleLocal[st.S] = b
+				}
 				smu.Unlock()
 				cp := *b.info // (an equal description at another address, never the object Bind was given)
 				info := &cp
@@ -1005,7 +1008,9 @@ func uRunX(t *testing.T, sc *uScript, out *vfWriter, scribble, quiet bool, rb *u
 			if b := getRemote(st.S); b != nil {
 				smu.Lock()
 				delete(remote, st.S)
-				staleRemote[st.S] = b
+				if !sc.NoStale {
+					staleRemote[st.S] = b
+				}
 				smu.Unlock()
 				cp := *b.info // (an equal description at another address, never the object Bind was given)
 				info := &cp
